@@ -185,6 +185,30 @@ struct FaultSys : StrSys {
                 }
             }
         }
+        // the scalar-valued const members and functors (searching, comparing, hashing, parsing, iteration): none of them is
+        // expected to allocate; if one does, that allocation is failed like any other
+        for (int s = 0; s < 2; ++s) {
+            if (!slots[s].alive) continue;
+            const S &a = *slots[s].obj();
+            const S &b = slots[1 - s].alive ? *slots[1 - s].obj() : other_const;
+            long n = 0;
+            for (long k = -1; k < n; ++k) {
+                hx::note_phase(vf::strf("reads:scalar reads (find/compare/hash/hash_i/to_int/...)%s", k < 0 ? "" : vf::strf(" [allocation #%ld fails]", k).c_str()).c_str());
+                vf::events_reset();
+                g_fault_k = k;
+                g_fault_fired = false;
+                g_lib_allocs = 0;
+                vf::Outcome oc = vf::guard([&] { LIB((void)scalar_reads(a, b)); });
+                g_fault_k = -1;
+                if (k < 0) n = std::min<long>(g_lib_allocs, 16);
+                if (k >= 0 && g_fault_fired && oc.kind != vf::EX_BAD_ALLOC)
+                    f.push_back(Fail{"c19:scalar-reads:fault-not-reported-as-bad_alloc", oc.str()});
+                else if (k < 0 && !oc.ok())
+                    f.push_back(Fail{vf::strf("c19:scalar-reads:%s", vf::outkind_name(oc.kind)), oc.str()});
+                if (vf::live_tracked() != owned_blocks()) f.push_back(Fail{"c19:scalar-reads:leak", "blocks left behind by scalar reads"});
+                if (!f.empty()) return;
+            }
+        }
         hx::note_phase("reads");
         if (sample_list.size() < 4 && nontrivial()) sample_list.push_back(vf::strf("s0=%s s1=%s", vf::vis(model[0]).c_str(), vf::vis(model[1]).c_str()));
     }
